@@ -56,7 +56,11 @@ class Checker:
         from cylc.flow.exceptions import CylcError
         from cylc.flow.pathutil import get_cylc_run_dir, get_workflow_run_dir
         from cylc.flow.hostuserutil import get_user
-        from cylc.flow.id_cli import parse_id
+        from cylc.flow.id_cli import parse_id_async
+        import asyncio
+        loop = asyncio.new_event_loop()          # one loop for all calls (asyncio.run per call costs 3x more)
+        def parse_id(*a, **k):
+            return loop.run_until_complete(parse_id_async(*a, **k))
         from cylc.flow.unicode_rules import WorkflowNameValidator
         self.wf, self.CylcError = wf, CylcError
         self.base = get_cylc_run_dir()
